@@ -84,6 +84,30 @@ def generic_loop(mod, ctx):
         ctx.cnt('cases')
 
 
+def start_reach(repo):
+    """sys.monitoring reach recorder: which functions of the repository were
+    entered in this worker (PY_START, disabled per code object after the first
+    hit, so the cost is negligible)."""
+    mon = getattr(sys, 'monitoring', None)
+    if mon is None:
+        return None
+    seen = set()
+    prefix = os.path.join(repo, 'matchingproblems') + os.sep
+    try:
+        mon.use_tool_id(4, 'rv_reach')
+
+        def cb(code, offset):
+            f = code.co_filename
+            if f.startswith(prefix):
+                seen.add(f[len(prefix):] + ':' + code.co_qualname)
+            return mon.DISABLE
+        mon.register_callback(4, mon.events.PY_START, cb)
+        mon.set_events(4, mon.events.PY_START)
+    except Exception:
+        return None
+    return seen
+
+
 def main():
     ap = argparse.ArgumentParser()
     ap.add_argument('prop')
@@ -99,6 +123,7 @@ def main():
     res = {'crash': None}
     try:
         from rv import loader
+        reach = start_reach(loader.REPO)
         loader.load()
         mod = importlib.import_module('rv.props.' + a.prop.lower())
         ctx = Ctx(a.prop, a.tier, a.seed, a.shard, a.nshards, workdir)
@@ -110,6 +135,7 @@ def main():
         else:
             generic_loop(mod, ctx)
         res.update(ctx.result())
+        res['reach'] = sorted(reach) if reach is not None else None
     except BaseException as e:   # a crashed worker is inconclusive, never green
         res['crash'] = ''.join(traceback.format_exception(type(e), e, e.__traceback__))[-4000:]
     finally:
